@@ -27,6 +27,8 @@ type Result struct {
 	Harness    string         `json:"harness,omitempty"`
 	SimDays    int            `json:"sim_days,omitempty"`
 	Points     int            `json:"crash_points,omitempty"`
+	// APIProblems: lock API requests that do not conform (judged by C18)
+	APIProblems []string `json:"api_problems,omitempty"`
 }
 
 // Ctx is handed to a scenario.
@@ -36,14 +38,25 @@ type Ctx struct {
 	BinDir  string
 	Res     *Result
 	W       *World
-	Sample  bool
+	Sample   bool
 	Suppress map[string]bool
+	softClass, softDetail string
 }
 
 func (c *Ctx) Violation(class, format string, a ...interface{}) {
 	if c.Res.Class == "" {
 		c.Res.Class = class
 		c.Res.Detail = fmt.Sprintf(format, a...)
+	}
+}
+
+// Soft records a violation of a class that is a candidate known finding: the
+// scenario goes on (tolerating exactly that effect) so that any other
+// violation in the same history is still found and takes precedence.
+func (c *Ctx) Soft(class, format string, a ...interface{}) {
+	if c.softClass == "" {
+		c.softClass = class
+		c.softDetail = fmt.Sprintf(format, a...)
 	}
 }
 
@@ -93,6 +106,9 @@ func RunOne(name string, tape *sim.Tape, root, binDir string, sample bool, suppr
 			}
 		}()
 		sc(c)
+		if res.Class == "" && c.softClass != "" {
+			res.Class, res.Detail = c.softClass, c.softDetail
+		}
 	}()
 	if c.W != nil {
 		res.Procs = len(c.W.Steps)
